@@ -150,6 +150,7 @@ func checkBytes(r *mon.Run, tg *target, b []byte, ri *refInfo, o byteOpts) (acce
 	if err != nil {
 		if ri.exact {
 			cnt[c_rejected_grammatical]++
+			nontrivial(r, tg, b, o.origin)
 			if tg.T == ifaceType || tg.Name == "rlp.RawValue" {
 				// the untyped targets must accept exactly the canonical language
 				viol(r, tsig("DecodeBytes", tg, "rejects-canonical-item"), c, "DecodeBytes(%x) into %s = %v, but the input is one canonical RLP item", clip(b), tg.Name, err)
@@ -160,6 +161,7 @@ func checkBytes(r *mon.Run, tg *target, b []byte, ri *refInfo, o byteOpts) (acce
 		return false
 	}
 	cnt[c_accepted]++
+	nontrivial(r, tg, b, o.origin)
 	// (3) grammar
 	if tg.Raw {
 		// documented: content of RawValues is not verified; the outer header(s) the decoder did read must be canonical
@@ -222,6 +224,16 @@ func checkBytes(r *mon.Run, tg *target, b []byte, ri *refInfo, o byteOpts) (acce
 		}
 	}
 	return true
+}
+
+// nontrivial counts a non-trivial (type, string) pair: exhaustive pairs are
+// distinct by construction (counter), generated ones go into a measured set.
+func nontrivial(r *mon.Run, tg *target, b []byte, origin string) {
+	if origin == "exh" {
+		cnt[c_exh_nontrivial_pairs]++
+		return
+	}
+	r.Distinct("nontrivial_generated_pairs", []byte(tg.Name), b)
 }
 
 func clip(b []byte) []byte {
